@@ -188,7 +188,7 @@ def inv_traces(ctx, pool, nc, ntr):
     with open(ctx.scratch / name / 'emitted.ndjson') as f:
         for line in f:
             o = json.loads(line)
-            if isinstance(o, dict) and 'cov' in o and (o['cov'] - 1) not in rej:
+            if isinstance(o, dict) and 'cov' in o and (o['cov'] - 1) not in rej and o['cov'] - 1 < len(trs):
                 ev = trs[o['cov'] - 1][o['l'] - 1]
                 bad = C.finish_cov_event(ev, o, nc)
                 if bad:
